@@ -22,6 +22,11 @@ CLAIMS = {
          "Operation sequences over the exported PacketQueue API are compared step by step with a flat byte model (bytes out = bytes in, in order; short read = ErrNotEnoughBytes; restore re-reads; discard is invisible) and a layout model for writes (Position after every write); all sequences up to length 5/6 (quick) and 7/8 (thorough) over small alphabets are enumerated completely.",
          "Only the two usages the library has (receive side, transmit side) and write-then-read-back are generated; positions are restored only before the next discard (documented volatile).",
          "DESIGN.md section 3, C15"),
+ "C16": ("exploration",
+         "exhaustive (precision, scale) x boundary magnitudes + rapid random digit strings and text variants, oracle = math/big.Rat and an independent numeral scanner",
+         "All 779 (precision, scale) pairs x signs x boundary magnitudes are enumerated; random digit strings, text variants, unrepresentable inputs (per root-cause class) and invalid constructions are generated; String() is compared with the exact expansion of u/10^scale, SetString with exact rational arithmetic, rejected input must leave the decimal unchanged.",
+         "Variants whose acceptance the documentation does not promise ('+', surrounding spaces, '.5', '5.', zero digits beyond the scale) are tolerated: exact if accepted, otherwise error and unchanged. Precision 0 is not judged (the library itself constructs NewDecimal(0,0)).",
+         "DESIGN.md section 3, C16"),
  "C20": ("exploration",
          "exhaustive enumeration of both level domains + rapid call-history generation + cross-process agreement, oracle = table written from the property text",
          "Every sql.IsolationLevel in -8..64 and every ASE level in -4..8 is enumerated (finite space, complete), each evaluated thousands of times in 5+ separate processes whose answers must agree; random call histories check answer stability. For a function over a tiny finite domain whose only hidden input is map iteration order this is as strong as testing gets.",
